@@ -105,6 +105,9 @@ def run(ctx):
     quick = ctx.tier == "quick"
     if ctx.replay:
         rp = ctx.replay["replay"]
+        if rp.get("kind") == "locktie":
+            locktie.regenerate(ctx, "C09")
+            return
         bdir = vlib.cxx_build("tsan", ("texel", "texelutil", "mknet"))
         vlib.lake_build(["driver"])
         if rp.get("kind") == "tsan-proofgame":
